@@ -270,6 +270,17 @@ def check(pid, tier, seed):
         run_jobs(normal, parallel)
         for j in fuzz:
             run_jobs([j], 1)
+        # a process that died (fatal error such as a stack overflow, a signal) without leaving its case
+        # behind is run once more, same seed, with every case written to the pending file first
+        for j in jobs:
+            if j.kind == "fuzz" or j.timed_out or j.rc in (0, 1, 3):
+                continue
+            if os.path.exists(j.failpath) or os.path.exists(j.failpath + ".pending") or os.path.exists(j.failpath + ".hang"):
+                continue
+            log("---- %s died with exit %s leaving no case behind; running it again with the pending-case file" % (j.name, j.rc))
+            j2 = Job(j.name, j.cmd, dict(j.env, VERIF_PENDING="1"), j.cwd, j.logpath + ".rerun", j.failpath, j.partpath, j.timeout, j.kind, j.requested)
+            run_jobs([j2], 1)
+            j.rc, j.timed_out, j.logpath = j2.rc, j2.timed_out, j2.logpath
         hang_done = ""
         for j in jobs:
             out = j.output()
